@@ -212,6 +212,10 @@ pub fn gen_replicas(prop: &str, r: &mut Prng, seed: u64, run: u64, thorough: boo
         }
         _ => {}
     }
+    if thorough && r.chance(1, 12) {
+        // thorough tier: larger graphs (ancestor sets beyond the 30-id inline storage, deep recursion)
+        cfg.n_terms = r.urange(60, 400);
+    }
     if prop == "C16" && r.chance(1, 2) {
         // facts every transport can carry, so that all replicas are pairwise comparable
         cfg.obsolete = false;
@@ -273,7 +277,9 @@ pub fn gen_replicas(prop: &str, r: &mut Prng, seed: u64, run: u64, thorough: boo
         replicas.push(s);
     }
     let sub = if matches!(prop, "C01" | "C02" | "C03") && r.chance(1, 2) { draw_sub(r, &facts, 0, false) } else { None };
-    Scenario { prop: prop.to_string(), seed, run, facts, replicas, sub, drop_terms, aux_seed: r.next_u64(), ..Default::default() }
+    // C10 thorough: on a sample of runs every one of the 10^7 ids of the id space is looked up
+    let mode = if prop == "C10" && thorough && r.chance(1, 2000) { "full-sweep".to_string() } else { String::new() };
+    Scenario { prop: prop.to_string(), seed, run, mode, facts, replicas, sub, drop_terms, aux_seed: r.next_u64(), ..Default::default() }
 }
 
 pub fn schedule_fingerprint(s: &Scenario) -> u64 {
@@ -353,7 +359,7 @@ pub fn exec_replicas(ctx: &mut Ctx, s: &Scenario) -> Outcome {
                     check_ic_invariants(&mut out, prop, &what, &got);
                 }
                 if prop == "C10" {
-                    crate::props::c10::check_lookups(ctx, &mut out, &what, o, &pf, &mut r, false);
+                    crate::props::c10::check_lookups(ctx, &mut out, &what, o, &pf, &mut r, s.mode == "full-sweep" && i == 0);
                 }
                 built.push((b, Some(got), pf));
             }
